@@ -52,7 +52,7 @@ pub fn link(cap: &Capture, scheme: &str, shuffle: u32, which: Which) -> Result<I
 }
 
 /// Initial state by variable name (C-level names for globals; mangled names for locals).
-#[derive(Debug, Clone, Default, PartialEq)]
+#[derive(Debug, Clone, Default, PartialEq, serde::Serialize, serde::Deserialize)]
 pub struct Init {
     pub vars: BTreeMap<String, InitVal>,
     pub x: u8,
@@ -63,7 +63,7 @@ pub struct Init {
     pub fill: u32,
 }
 
-#[derive(Debug, Clone, PartialEq)]
+#[derive(Debug, Clone, PartialEq, serde::Serialize, serde::Deserialize)]
 pub enum InitVal {
     Bytes(Vec<u8>),
     /// pointer to (object, offset)
@@ -84,7 +84,7 @@ pub struct RunResult {
     pub trace: Vec<Access>,
 }
 
-fn fill_byte(seed: u32, addr: u16) -> u8 {
+pub fn fill_byte(seed: u32, addr: u16) -> u8 {
     let mut h = seed ^ (addr as u32).wrapping_mul(0x9E37_79B1);
     h ^= h >> 15;
     h = h.wrapping_mul(0x85EB_CA6B);
@@ -105,7 +105,7 @@ impl Machine {
         let cpu = &mut self.cpu;
         cpu.mem.fill(0);
         // RAM filler
-        for a in 0..0x0F00u16 {
+        for a in 0..0x1000u16 {
             cpu.mem[a as usize] = fill_byte(init.fill, a);
         }
         for a in 0x1000..0x1800u16 {
